@@ -26,6 +26,10 @@ PROPS = {
                 outside=["control-flow, access, crypto, state-read and compute ops, and the exec loop, are not yet encoded here", "states above the bound; the 4096/10240 limits are reached only through symbolic operands, not through large states"]),
     "C06": dict(claim="No feasible panic / allocation abort in the decoders for mutations and predicates, Predicate::node_edges, single-op and stream bytecode parsing, BytecodeMapped construction and the graph scheduler, on symbolic inputs within the stated bounds (word strings <=6, byte strings in 16 length classes <=76, byte streams of <=3 ops, graphs <=3 nodes incl. cyclic, dangling and malformed ones).",
                 outside=["read_or_fallback, check_set, predicate::check, check_contract not yet encoded", "inputs above the bounds"]),
+    "C07": dict(claim="Vm::exec (real MIR) against a nondeterministic operation (any of None / Pc(any) / Halt / ComputeEnd / ComputeResult(any pc, any gas, any halt) / Err), any per-op cost (0..u64::MAX), any total limit, from any start pc: Ok(g) implies g is exactly the sum of the costs of the executed ops plus the gas returned by compute children, that sum does not overflow and g <= limit; OutOfGas is raised before the op executes (one more cost call than op executions) exactly when the next cost does not fit, or after a Compute whose children's gas does not fit.",
+                outside=["more than 2 (thorough 3) loop iterations per path - the assertion is per iteration from an arbitrary accumulated gas", "that compute children individually respect the limit is the same loop (Vm::exec) applied recursively", "checker-level saturating sums are decided under C01"]),
+    "C09": dict(claim="JumpIf/HaltIf/PanicIf/Halt from any stack <=4 words and any pc against the specification (condition 0/1, non-zero distance, target = pc + distance computed exactly, errors otherwise, PanicIf returns the stack); Repeat/RepeatEnd/RepeatCounter as ONE step of a state machine from an ARBITRARY repeat stack of <=2 slots (any counter/limit/direction/start index) - the loop semantics for every count follows by induction on the counter; the 4096-entry limit; Vm::eval's result.",
+                outside=["whole loop programs are not unrolled here (per-step induction instead)", "nesting deeper than the slots bound except through the frame condition on outer slots"]),
     "C08": dict(claim="Bounded symbolic checking of every Stack/Pred/Alu/Memory/ParentMemory op: the real MIR of essential-vm's step_op_* is executed symbolically from every stack of <=6 (thorough 9) and memory of <=4 (6) fully symbolic words and compared with a reference model written from asm.yml incl. the frame condition; the arithmetic kernels are additionally decided on the compiled code by Kani/CBMC.",
                 engine="mirsym+kani", technique="symbolic execution of rustc MIR with z3 (own executor) + Kani/CBMC proof harnesses",
                 outside=["stack/memory shapes above the stated bounds", "EqSet", "the i64 division identity a=q*d+r is decided by K on operands |a|<2^16,|d|<2^8 plus boundary constants; full width only for the error condition and sign rules"]),
@@ -44,8 +48,6 @@ PROPS = {
 NOT_APPLICABLE = {
     "C02": "thread-schedule independence of the rayon sections: Kani has no concurrency model and ICEs on rayon-reaching code; encoding rayon's work-stealing scheduler for the solver is out of reach; the 'equals the sequential evaluation' half is decided under C01 (DESIGN.md section 5)",
     "C04": "not yet encoded (solution-set permutation invariance); see DESIGN.md section 4",
-    "C07": "not yet encoded (gas accounting of the exec loop and compute children)",
-    "C09": "not yet encoded (control flow / repeat)",
     "C10": "not yet encoded (compute fork/join)",
     "C11": "not yet encoded (state-read ops)",
     "C12": "not yet encoded (access / crypto marshalling)",
